@@ -4,7 +4,7 @@
 cd "$(dirname "$0")"
 export CARGO_NET_OFFLINE=true
 mkdir -p build evidence replays
-( cd cex && CARGO_TARGET_DIR=../build/cex-target cargo build --release --offline -q ) || echo "setup: cex crate did not build (checks will retry)"
+( cd cex && CARGO_TARGET_DIR=../build/cex-target cargo build --release --offline -q && CARGO_TARGET_DIR=../build/cex-target cargo build --profile buffered --offline -q ) || echo "setup: cex crate did not build (checks will retry)"
 for c in kani/*/; do
   n=$(basename "$c")
   cp -f /repo/Cargo.lock "$c/Cargo.lock" 2>/dev/null
